@@ -243,7 +243,7 @@ class C11(Prop):
         "weibull_objective_is_neg_loglik", "weibull_loglik_derivatives", "weibull_fit_optimality_certificate", "weibull_stationary_is_global_maximiser_partial",
         "weibull_sxp_fit_parameters_positive", "gamma_rate_is_maximiser", "truncated_gumbel_gradient_is_derivative",
         "set_expect_fills_all_bins", "expected_tail_emin_in_range", "goodness_never_faults", "goodness_accounts_for_its_counts",
-        "plot_accounts_for_data", "plot_survival_accounts_for_data", "declare_rounding_keeps_the_data")]
+        "plot_accounts_for_data", "plot_survival_accounts_for_data", "plot_qq_in_bounds", "declare_rounding_keeps_the_data")]
     claimed = True
     technique = ("Lean 4 proof over an executable line-by-line model (numeric class: Float for the bit-exact differential run, Q/R for the theorems) "
                  "+ bit-exact correspondence with the ASan/UBSan-built C code + exact-rational / log-likelihood property monitors")
@@ -272,7 +272,7 @@ class C11(Prop):
                   "conditionally (Weibull: bounded by the derivatives at the point; stationarity => global maximum); monitored: local pattern search, fit >= generating parameters, recovery on exact "
                   "quantile grids of every family. Gamma stationarity in tau (digamma; the code uses its own series), stretched exponential and GEV likelihood shape: not proved. "
                   "Not modelled (monitors only): GEV fits (log1p/expm1 are not available to the executable model), stretched-exponential binned fit (esl_sxp_cdf ignores the status of "
-                  "esl_stats_IncompleteGamma and may return an unset value for extreme parameters), esl_histogram_PlotQQ/Write/Print (number formatting), esl_gumbel/esl_exp tail fits. "
+                  "esl_stats_IncompleteGamma and may return an unset value for extreme parameters), esl_histogram_Write/Print and the number formatting of the plots, esl_gumbel/esl_exp tail fits. "
                   "A freshly allocated expect[] stays uninitialised when SetExpectedTail refuses base_val (generator issues a refused call only after expected counts exist). "
                   "Log-normal sigma uses the n-1 variance, not the ML n; libm and libc qsort are trusted. "
                   "Genuine defects found while building this check and repaired in /repo: b44f0f8 7d6f911 fd84f7f bad2f4e 2487976 935fded 9b72a6e 6f20587 6da6a89 8354c02; their witnesses are corpus regression cases.")
@@ -285,11 +285,11 @@ class C11(Prop):
                    "binary64 evaluation of (x-bmin)/w within rounding distance of a bin edge is L0: compared bit-exactly with the model, monitored with a relative 1e-9 tolerance unless all quantities are dyadic",
                    "exp(-lambda*x) outside the binary64 range (|lambda*x| > 700) is not claimed finite",
                    "modelled C functions: esl_histogram_Create CreateFull Score2Bin Add sort DeclareCensoring DeclareRounding SetTail SetTailByMass GetRank GetData GetTail GetTailByMass "
-                   "SetExpect SetExpectedTail Goodness (with esl_stats_ChiSquaredTest/IncompleteGamma/LogGamma) and the bin accounting of Plot/PlotSurvival; "
+                   "SetExpect SetExpectedTail Goodness (with esl_stats_ChiSquaredTest/IncompleteGamma/LogGamma) and the bin accounting of Plot/PlotSurvival/PlotQQ; "
                    "esl_exp_FitComplete FitCompleteScale FitCompleteBinned; esl_lognormal_FitComplete FitCountHistogram; esl_stats_DMean Psi Trigamma; lawless416 lawless422 esl_gumbel_FitComplete FitCompleteLoc "
                    "FitCensored FitCensoredLoc FitTruncated (tevd_func tevd_grad); esl_wei_FitComplete FitCompleteBinned; esl_sxp_FitComplete; esl_gam_FitComplete FitCountHistogram FitCompleteBinned; "
                    "esl_min_ConjugateGradientDescent numeric_derivative bracket brent (incl. ESL_MIN_DAT); esl_root_Bisection NewtonRaphson",
-                   "not modelled (implementation-side monitors only): esl_gev_* fits, esl_sxp_FitCompleteBinned, histogram PlotQQ/Write/Print (text formatting), allocation failure paths"]
+                   "not modelled (implementation-side monitors only): esl_gev_* fits, esl_sxp_FitCompleteBinned, histogram Write/Print (text formatting), allocation failure paths"]
     rule = ("cases = histogram operation histories (create, batches of Adds that force repeated growth below and above, edge values +-1 ulp, ties, non-finite and out-of-int-range values, "
             "rank/tail/censoring queries, Add after finishing) and data sets (exact quantile grids, the library's own samplers, ties, outliers, scales 1e-6..1e6, censoring 0..0.9, degenerate sets) "
             "run through every fit; non-trivial = at least one ok answer and no fault; distinct by output trace")
@@ -363,7 +363,6 @@ class C11(Prop):
         bounds, tail masses) may differ by a rounding-level relative error, so that a harmless re-association of floating-point
         operations in the C code is not reported (measured on the clean tree: the two sides are bit-identical)."""
         wa, wb = a.split(" "), b.split(" ")
-        if len(wa) != len(wb): return False
         name = op.split()[0] if op else ""
         if name == "hdump" and a.startswith("ok nb=") and b.startswith("ok nb="):
             return self.same_histogram(kv(a), kv(b))
@@ -374,6 +373,14 @@ class C11(Prop):
             return la == lb or abs(la - lb) <= 1e-12 * (abs(la) + abs(lb))
         if name == "hnew":
             return wa[0] == wb[0]
+        if name == "cgd" and kv(op).get("fam") in ("weinll", "gamnll", "sxpnll"):
+            # the objective is built from the library's logpdf (property C10's code): a rounding-level change there may legitimately move the
+            # optimiser's trajectory; same status and the same minimum value to the optimiser's own tolerance is what has to agree
+            if wa[0] != wb[0]: return False
+            if wa[0] not in ("ok", "enohalt"): return True
+            fa, fb2 = fbits(kv(a)["fx"]), fbits(kv(b)["fx"])
+            return math.isfinite(fa) and math.isfinite(fb2) and abs(fa - fb2) <= 1e-4 * max(abs(fa), abs(fb2)) + 1e-9
+        if len(wa) != len(wb): return False
         rel = 1e-7 if name in ("fit", "hexpfit") else 1e-12
         exact_keys = ("xmin", "xmax", "first", "last", "hash", "w")      # copies of input values: exact
         for x, y in zip(wa, wb):
@@ -494,12 +501,12 @@ class C11(Prop):
             "hexptail %s base=%s pmass=%s" % (u, d(float("nan")), d(0.5)), "hexpdump", "hdump"]})
         c.append({"name": "regress-plots-empty-histogram", "sticky": 1, "ops": [
             "hnew full=0 bmin=%s bmax=%s w=%s" % (d(0.0), d(10.0), d(1.0)), "hplotsurv", "hplot", "hgood nfitted=0", "hexpdump",
-            "hexpect " + u, "hexpdump", "hplotsurv", "hplot", "hgood nfitted=0", "hexptail %s base=%s pmass=%s" % (u, d(3.0), d(0.5)), "hexpdump", "hplotsurv", "hplot", "hgood nfitted=1"]})
+            "hexpect " + u, "hexpdump", "hplotsurv", "hplot", "hplotqq", "hgood nfitted=0", "hexptail %s base=%s pmass=%s" % (u, d(3.0), d(0.5)), "hexpdump", "hplotsurv", "hplot", "hgood nfitted=1"]})
         g = grid("exp", 400, 0.0, 0.5, 1.0)
         c.append({"name": "goodness-exp-grid", "sticky": 1, "ops": [
             "hnew full=1 bmin=%s bmax=%s w=%s" % (d(0.0), d(20.0), d(0.25)), "hadd xs=" + ",".join(d(x) for x in g),
-            "hexpect cdf=exp c=%s,%s" % (d(0.0), d(0.5)), "hexpdump", "hgood nfitted=0", "hgood nfitted=2", "hplot", "hplotsurv",
-            "hsettail phi=" + d(2.0), "hexptail cdf=exp c=%s,%s base=%s pmass=%s" % (d(0.0), d(0.5), d(2.0), d(0.3678794411714423)), "hexpdump", "hgood nfitted=1", "hplot", "hplotsurv"]})
+            "hexpect cdf=exp c=%s,%s" % (d(0.0), d(0.5)), "hexpdump", "hgood nfitted=0", "hgood nfitted=2", "hplot", "hplotsurv", "hplotqq",
+            "hsettail phi=" + d(2.0), "hexptail cdf=exp c=%s,%s base=%s pmass=%s" % (d(0.0), d(0.5), d(2.0), d(0.3678794411714423)), "hexpdump", "hgood nfitted=1", "hplot", "hplotsurv", "hplotqq"]})
         xs = [0.5, 1.0, 1.5, 3.2, 2.5, 7, 7]
         c.append({"name": "fit-basic", "sticky": 1, "ops": ["data xs=" + ",".join(d(x) for x in xs)] + self.fit_ops(xs, None)})
         return c
@@ -650,10 +657,10 @@ class C11(Prop):
                 ops.append("hexptail %s base=%s pmass=%s" % (some_cdf(), d(rng.choice([float("nan"), float("inf"), 1e300, -3e9 * w + bmin])), d(0.5)))
             ops.append("hexpdump")
             ops.append("hgood nfitted=%d" % rng.choice([0, 0, 1, 2, 5]))
-            ops.append("hplot"); ops.append("hplotsurv")
+            ops.append("hplot"); ops.append("hplotsurv"); ops.append("hplotqq")
             if rng.random() < 0.3: ops.append("hdump")
         elif rng.random() < 0.3:
-            ops += ["hgood nfitted=0", "hplot", "hplotsurv"]      # no expected counts: eslEINVAL, one data set
+            ops += ["hgood nfitted=0", "hplot", "hplotsurv", "hplotqq"]      # no expected counts: eslEINVAL, one data set
         ops.append("hexpfit")
         if rng.random() < 0.3: ops.append("hweifit")      # modelled: any histogram state, incl. censored / clamped cmin
         if rng.random() < 0.3: ops.append("hgamfit")
@@ -1259,6 +1266,10 @@ class C11(Prop):
                 if not l.startswith("ok"): return F("PlotSurvival failed: %r" % l)
                 r = kv(l)
                 if r["cum"] != "-" and int(r["cum"]) != len(vals): return F("PlotSurvival: the last cumulative count is %s, %d values were accepted" % (r["cum"], len(vals)))
+            elif name == "hplotqq":
+                if not l.startswith("ok"): return F("PlotQQ failed: %r" % l)
+                r = kv(l)
+                if r["cum"] != "-" and last_dump and not (0 <= int(r["cum"]) <= int(last_dump["nc"])): return F("PlotQQ: observed cdf outside [0,1] (count %s of Nc=%s)" % (r["cum"], last_dump["nc"]))
             elif name in ("hsettail", "hsettailmass"):
                 if l.startswith("ok"): done = True
             elif name == "hround":
